@@ -58,6 +58,7 @@ type vwPeerSpec struct {
 	addPathRx  bool  // we accept ADD-PATH from this peer
 	allowOwnAs uint8
 	llgr       bool
+	maxPrefixes uint32 // >0: prefix limit of the IPv4-unicast family
 }
 
 type vwPeer struct {
@@ -105,6 +106,9 @@ func (w *vWorld) addPeer(sp vwPeerSpec) *vwPeer {
 			Config:   &api.AfiSafiConfig{Family: &api.Family{Afi: api.Family_AFI_IP, Safi: api.Family_SAFI_UNICAST}, Enabled: true},
 			AddPaths: &api.AddPaths{Config: &api.AddPathsConfig{Receive: sp.addPathRx, SendMax: uint32(sp.sendMax)}},
 		}},
+	}
+	if sp.maxPrefixes > 0 {
+		pr.AfiSafis[0].PrefixLimits = &api.PrefixLimit{Family: &api.Family{Afi: api.Family_AFI_IP, Safi: api.Family_SAFI_UNICAST}, MaxPrefixes: sp.maxPrefixes}
 	}
 	switch sp.kind {
 	case "rrc":
